@@ -8,9 +8,13 @@
  *             documented return codes; decoder state used only while initialised (ghost) and initialised with the info of
  *             the current link; at a link boundary the serial number selects the link whose table entry matches;
  *             when the position is set from a packet's granule position it equals
- *             max(g - firstoffset(link),0) - samples_pending + sum(lengths of earlier links)   (C07 pos-fetch).
+ *             max(g - firstoffset(link),0) - samples_pending + sum(lengths of earlier links)   (C07 pos-fetch);
+ *             every page is submitted to the stream layer at most once (C10: no hole indications on an intact stream, also across a
+ *             link boundary of a streaming handle, where _fetch_headers has already submitted the page it leaves behind).
  */
 #define VF_EXTRA_STUBS
+static int g_og_submitted=0;   /* ghost: the page currently held in the fetch loop's page object has been submitted to the stream layer */
+#define VF_PAGEIN_HOOK(os,og) do{ CHECK(!g_og_submitted,"a page is submitted to the stream layer ONCE (a second submission is reported by libogg as a hole and replays its packets: an intact chained stream read without seeking would report OV_HOLE at every link boundary)"); g_og_submitted=1; }while(0)
 #include "vf_env.h"
 static int g_pending=0; static int g_hs=0; static int g_blockins=0; static int g_np_err=0;   /* ghost: the page source reported end of data or a read error */
 #define g_init_vi env_init_vi
@@ -22,12 +26,12 @@ int vorbis_synthesis_halfrate_p(vorbis_info *vi){ return g_hs; }
 static ogg_int64_t _get_next_page(OggVorbis_File *vf,ogg_page *og,ogg_int64_t boundary){
   if(env_budget<=0) return OV_EOF; env_budget--;
   ogg_int64_t r=ND_long(); if(r<0){ ASSUME(r==OV_FALSE||r==OV_EOF||r==OV_EREAD); g_np_err=1; return r; }
-  ASSUME(r>=vf->offset && r<(1L<<40)); env_fill_page(og); vf->offset=r+27+4; return r; }
+  ASSUME(r>=vf->offset && r<(1L<<40)); env_fill_page(og); g_og_submitted=0; vf->offset=r+27+4; return r; }
 static int _fetch_headers(OggVorbis_File *vf,vorbis_info *vi,vorbis_comment *vc,long **serialno_list,int *serialno_n,ogg_page *og_ptr){
   CHECK(!vf->seekable && vi==vf->vi && vc==vf->vc && serialno_list==0,"streaming re-read of headers uses slot 0");
   int r=ND_int(); if(r){ ASSUME(r==OV_EREAD||r==OV_ENOTVORBIS||r==OV_EBADHEADER||r==OV_EVERSION||r==OV_EFAULT); return r; }
   vorbis_info_init(vi); vorbis_comment_init(vc); vi->rate=44100; vi->channels=ND_irange(1,255); vc->vendor=malloc(1);
-  vf->os.serialno=ND_int(); vf->ready_state=STREAMSET; return 0; }
+  vf->os.serialno=ND_int(); vf->ready_state=STREAMSET; g_og_submitted=1; /* F-headers: the page left in *og_ptr has been submitted */ return 0; }
 #ifndef NL
 #define NL 3
 #endif
